@@ -14,7 +14,8 @@ from .c12 import runs_of
 
 PID = 'C13'
 TIMEOUT = 20.0
-RULE = ('every phase sequence of length 1..L over a 6-value alphabet x 3 phase_edge values; per case: no mask, '
+RULE = ('every phase sequence of length 1..L over a 6-value alphabet, and every concatenation of 2..T cycle templates '
+        '(8 templates: good for all / some / no edge tolerances, with a reversal, two-sample cycles) x 3 phase_edge values; per case: no mask, '
         'every boolean mask (length <= Lm) or every single-block mask (longer), is_good on every segment, and the '
         'Cycles container; non-trivial = at least one segment is good and at least one is bad for that edge')
 ASSUMPTIONS = ['alphabet values are never within rounding distance of an edge tolerance, so <= vs < is not decisive',
@@ -31,8 +32,12 @@ STEP = 1.5 * np.pi
 
 def bounds(tier):
     if tier == 'quick':
-        return {'max_len': 5, 'all_masks_upto': 5, 'container_upto': 5}
-    return {'max_len': 7, 'all_masks_upto': 6, 'container_upto': 6}
+        return {'max_len': 5, 'all_masks_upto': 5, 'container_upto': 5, 'templates': 3}
+    return {'max_len': 7, 'all_masks_upto': 6, 'container_upto': 6, 'templates': 4}
+
+
+# cycle templates (indices into the 6-value alphabet): concatenations give series rich in good / nearly-good cycles
+TEMPLATES = ((0, 3, 5), (1, 3, 5), (2, 3, 5), (0, 3, 4), (0, 2, 3, 5), (0, 3, 2, 5), (0, 5), (1, 4))
 
 
 def cases(tier, seed):
@@ -40,6 +45,11 @@ def cases(tier, seed):
     for s in enum.sequences(range(6), 1, b['max_len']):
         for ei in range(3):
             yield (s, ei, seed, b['all_masks_upto'], b['container_upto'])
+    for n in range(2, b['templates'] + 1):
+        for combo in itertools.product(range(len(TEMPLATES)), repeat=n):
+            s = tuple(v for t in combo for v in TEMPLATES[t])
+            for ei in range(3):
+                yield (s, ei, seed, 0, 99)
 
 
 def decode_case(c):
